@@ -600,6 +600,7 @@ pub fn run(ctx: &Ctx, rep: &mut Report) {
             close_race(rep, case["iterations"].as_u64().unwrap_or(200_000) as u32, case["seed"].as_u64().unwrap_or(0));
         } else if check == "stress" {
             stress(rep, case["merges"].as_u64().unwrap_or(100_000) as u32, case["seed"].as_u64().unwrap_or(0));
+        } else if super::c19_e2e::replay(rep, check, case) {
         } else if check == "merge" || check == "merge_exhaustive" {
             replay_case::<Vec<MOp>, _>(rep, check, case, merge_oracle);
         } else {
@@ -659,4 +660,5 @@ pub fn run(ctx: &Ctx, rep: &mut Report) {
             }
         }
     }
+    super::c19_e2e::run(ctx, rep);
 }
